@@ -13,6 +13,15 @@ def first_line_len(data):
     return len(data) if i < 0 else i + 1
 
 
+def first_head_end(log):
+    """offset just past the first timestamped line of a generated log"""
+    if not log.msgs:
+        return len(log.data)
+    off = log.msgs[0][0]
+    i = log.data.find(b'\n', off)
+    return len(log.data) if i < 0 else i + 1
+
+
 def shapes(rng, k):
     """a rotating catalogue of log shapes"""
     shape = k % 8
@@ -52,12 +61,22 @@ def oracle_bytes(ctx, n):
         log = e2e.gen_log(rng, nm, **kw)
         p = os.path.join(ctx.work, 'c02_%d.log' % k)
         open(p, 'wb').write(log.data)
-        rc, out, err, _ = run_plain(p)
-        ev += 1
         exp = log.expected_bytes()
-        if rc != 0 or out != exp:
-            fails.append({'signature': 'bytes:stdout-differs-from-file-suffix', 'detail': f'rc={rc} ' + first_diff(out, exp),
-                          'args': e2e.BASE_ARGS + ['FILE'], 'file_hex': small_hex(log.data), 'shape': k % 8})
+        # the default block size, and small ones placed around the ends of the first lines so that
+        # continuation lines of the first messages straddle the end of block zero
+        nls = [i for i, c in enumerate(log.data[:400]) if c == 10][:5]
+        cands = [64, 65, 100, 128, 4096] + [x for p_ in nls for x in (p_, p_ + 1, p_ + 5) if x >= 64]
+        fl = first_head_end(log)
+        for bs in [None, rng.pick(cands), rng.pick(cands)]:
+            extra = [] if bs is None else ['--blocksz', str(bs)]
+            rc, out, err, _ = run_plain(p, extra)
+            ev += 1
+            if rc != 0 or out != exp:
+                sig = 'bytes:stdout-differs-from-file-suffix'
+                if out == b'' and exp and bs is not None and fl > bs:
+                    sig = 'gate:first-line-exceeds-block'          # known finding F1
+                fails.append({'signature': sig, 'detail': f'args {extra} rc={rc} ' + first_diff(out, exp),
+                              'args': e2e.BASE_ARGS + extra + ['FILE'], 'file_hex': small_hex(log.data), 'shape': k % 8})
         if len(samples) < 2:
             samples.append({'oracle': 'C02 bytes', 'shape': k % 8, 'file_bytes': len(log.data), 'messages': len(log.msgs),
                             'head': log.data[:80].decode('latin1')})
@@ -94,7 +113,7 @@ def oracle_blocksz(ctx, n, sizes=None, sig_known=True):
             ev += 1
             if (rc, out) != (rc0, out0):
                 sig = 'blocksz:stdout-differs-from-default'
-                fl = first_line_len(log.data)
+                fl = first_head_end(log)
                 b0 = min(bs, len(log.data))
                 if out == b'' and out0 and fl > bs:
                     sig = 'gate:first-line-exceeds-block'
